@@ -96,3 +96,24 @@ def vmStep (st : VmEngState) (args : List String) : VmEngState × String :=
   | _ => (st, "bad-op")
 
 end Cao.Driver
+
+namespace Cao.Driver
+open Cao Cao.Compiler Cao.Vm
+
+/-- `nat register <name>` / `nat call <moduletok> …` (C18 engine) -/
+def natStep (args : List String) : String :=
+  match args with
+  | ["register", name] => if name.startsWith "__" then "err:InvalidArgument" else "ok"
+  | "call" :: m :: _ =>
+    match Module.ofTok? m with
+    | none => "bad-op"
+    | some m =>
+      match compile m Gen.stdlib with
+      | .error e => "compile-error:" ++ (match e with | .err k _ => k.name | .panic w => w)
+      | .ok prog =>
+        let p := Prog.ofProgram prog
+        let (s', e) := run p 5000 (VmState.fresh {})
+        showOutcome p s' e
+  | _ => "bad-op"
+
+end Cao.Driver
